@@ -614,5 +614,17 @@ NvmModule *nvm_deserialize(const uint8_t *data, uint32_t size) {
         }
     }
 
+    /* Reject trailing bytes: nothing may follow the last section (the checksum
+     * cannot see a tail chosen to steer the CRC back to the stored value). */
+    uint32_t data_end = dir_end;
+    for (uint32_t i = 0; i < header.section_count; i++) {
+        uint32_t sec_end = mod->sections[i].offset + mod->sections[i].size;
+        if (sec_end > data_end) data_end = sec_end;
+    }
+    if (data_end != size) {
+        nvm_module_free(mod);
+        return NULL;
+    }
+
     return mod;
 }
